@@ -20,10 +20,10 @@ echo "--- demo files: $DEMOS"
 for f in $DEMOS; do mkdir -p $E/wt/$(dirname $f); cp $W/$f $E/wt/$f; done
 for f in $DEMOS; do
   case $f in
-    *_test.go) pkg=./$(dirname $f); name=$(grep -o "func Test[A-Za-z0-9_]*" $W/$f | head -1 | sed 's/func //');
-      echo "--- demo $f ($name) WITH patch"; (cd $E/wt && go test -vet=off -count=1 -run "^$name\$" $pkg 2>&1 | tail -4)
+    *_test.go) pkg=./$(dirname $f); name=$(grep -o "func Test[A-Za-z0-9_]*" $W/$f | sed 's/func //' | paste -sd'|');
+      echo "--- demo $f ($name) WITH patch"; (cd $E/wt && go test -vet=off -count=1 -run "^($name)\$" $pkg 2>&1 | tail -4)
       (cd $E/wt && git apply -R $E/patch.diff)
-      echo "--- demo $f ($name) WITHOUT patch"; (cd $E/wt && go test -vet=off -count=1 -run "^$name\$" $pkg 2>&1 | tail -4)
+      echo "--- demo $f ($name) WITHOUT patch"; (cd $E/wt && go test -vet=off -count=1 -run "^($name)\$" $pkg 2>&1 | tail -4)
       (cd $E/wt && git apply $E/patch.diff);;
   esac
 done
